@@ -742,11 +742,17 @@ pub mod verif {
     /// Opaque wrapper of the accept-side handle.
     pub struct AcceptHandle(pub(crate) WorkerHandleAccept);
 
+    /// The guard a service call holds for one connection (dropping it releases the slot).
+    pub struct Guard(WorkerCounterGuard);
+
+    /// Opaque wrapper of the server-side handle (stop requests).
+    pub struct SrvHandle(pub(crate) WorkerHandleServer);
+
     /// A connection taken from the worker's queue, with the guard a service call would hold.
     pub struct Picked {
         pub token: usize,
         pub io: MioStream,
-        pub guard: WorkerCounterGuard,
+        pub guard: Guard,
     }
 
     /// The worker-side ends of a handle pair: connection queue, counter, stop queue.
@@ -759,7 +765,7 @@ pub mod verif {
     }
 
     /// Create a handle pair exactly as `ServerWorker::start` does, without starting a worker.
-    pub fn link(idx: usize, wq: &Wq, limit: usize) -> (AcceptHandle, WorkerHandleServer, WorkerEnd) {
+    pub fn link(idx: usize, wq: &Wq, limit: usize) -> (AcceptHandle, SrvHandle, WorkerEnd) {
         let (tx1, conn_rx) = unbounded_channel();
         let (tx2, stop_rx) = unbounded_channel();
         let counter = Counter::new(limit);
@@ -771,7 +777,7 @@ pub mod verif {
             counter: WorkerCounter::new(idx, wq.0.clone(), counter.clone()),
             raw: counter,
         };
-        (AcceptHandle(accept), server, end)
+        (AcceptHandle(accept), SrvHandle(server), end)
     }
 
     impl WorkerEnd {
@@ -781,7 +787,7 @@ pub mod verif {
                 Ok(conn) => Some(Picked {
                     token: conn.token,
                     io: conn.io,
-                    guard: self.counter.guard(),
+                    guard: Guard(self.counter.guard()),
                 }),
                 Err(_) => None,
             }
@@ -803,8 +809,8 @@ pub mod verif {
         }
 
         /// Mint the guard a service call holds for one connection.
-        pub fn guard(&self) -> WorkerCounterGuard {
-            self.counter.guard()
+        pub fn guard(&self) -> Guard {
+            Guard(self.counter.guard())
         }
 
         /// Pending stop requests (graceful flag), acknowledged with `ack`.
